@@ -4,7 +4,7 @@ CONSTANTS
   Ds = {1, 4}
   W = 3
   H = 2
-  Tops = {0, 8, 13}
+  Tops = {0, 8}
   TopShift = 5
   Heights = {8, 27, 32}
   XLs = {0, 1, 9, 17}
